@@ -103,6 +103,18 @@ DistinctMenu == {
   Agg(<<KeyK>>, <<K, V>>, NoE, HAgg(CountStar, ">=", IntV(1)), TRUE, NoLimit, "none")
 }
 
+\* C16 over whole rows: DISTINCT and GROUP BY compare tuples column by column -- rows whose outer values are exchanged, rows that hold the
+\* same values in another column order, rows that differ in the middle column only
+SwapK == CaseE(<<<<CmpE("=", K, Lit(A)), Lit(B)>>>>, Lit(A))
+TupleMenu == {
+  Sel(<<P(K, ""), P(V, ""), P(SwapK, "o")>>, NoE, TRUE, NoLimit, "none"),
+  Sel(<<P(V, ""), P(K, ""), P(V, "v2"), P(K, "k2")>>, NoE, TRUE, NoLimit, "none"),
+  Sel(<<P(K, ""), P(SwapK, "o")>>, NoE, TRUE, NoLimit, "none"),
+  Sel(<<P(SwapK, "o"), P(V, ""), P(K, ""), P(V, "v2")>>, NoE, TRUE, NoLimit, "none"),
+  Agg(<<CountStar>>, <<K, V, SwapK>>, NoE, NoH, FALSE, NoLimit, "none"),
+  Agg(<<ItE("key", K, "k"), ItE("key", SwapK, "o"), CountStar>>, <<K, V, SwapK>>, NoE, NoH, TRUE, NoLimit, "none")
+}
+
 \* C07
 LimitMenu == { [s EXCEPT !.limit = n] : s \in {PlainKV,
                                                Sel(<<P(K, "")>>, NoE, TRUE, NoLimit, "none"),
